@@ -1314,14 +1314,26 @@ func (g *vGen) opening(kind int) string {
 		g.opJoin(o, room, g.someRs(), "ok")
 		for round := 2 + r.intn(2); round > 0; round-- {
 			g.opDisconnect(g.sess[a].conn)
-			for k := 1 + r.intn(3); k > 0; k-- {
-				switch r.intn(4) {
+			// every gap carries at least one chat-refresh notice (the merge flag must be reset by each resume);
+			// the rest of the traffic is random
+			k := 1 + r.intn(3)
+			forced := r.intn(k)
+			for ; k > 0; k-- {
+				pick := r.intn(4)
+				if k-1 == forced {
+					pick = 1
+				}
+				switch pick {
 				case 0:
 					g.emit("api %d %s message %s", b, vEnc(room), vEnc(g.someData()))
 				case 1:
-					// chat-refresh notices: repeated ones may be merged while the session is away
-					g.emit("api %d %s message %s", b, vEnc(room), vEnc("chat-refresh"))
+					// chat-refresh notices (client messages; a room API message with the same data is none):
+					// repeated ones may be merged while the session is away
+					g.emit("msg s%d m %s %s", o, []string{fmt.Sprintf("s s%d", a), "r -"}[r.intn(2)], vEnc("chat-refresh"))
 					if r.chance(1, 2) {
+						g.emit("api %d %s message %s", b, vEnc(room), vEnc("chat-refresh"))
+					}
+					if r.chance(1, 3) {
 						g.emit("msg s%d m s s%d %s", o, a, vEnc("chat-refresh"))
 					}
 				default:
